@@ -10,14 +10,21 @@
   * `seq_targeted_exact` — a targeted allocation returns exactly the requested frame;
   * `class`/alignment facts that need no invariant hold for every interleaving (see C13).
 
-  PARTIAL: the statement for *every interleaving of any number of threads* (the concurrent
-  bit-ownership invariant `ConcLowerInv` of DESIGN §7/C01) is not yet a theorem. The concurrent
-  part is explored by the trace co-simulation: real threads under a deterministic scheduler
+  * `conc_bitfield_blocks_disjoint` — **every interleaving of any number of threads**, at the
+    bitfield level: targeted allocations and frees of held blocks of every order up to the huge
+    order (`Bitfield::toggle`: single-word update, narrow compare-exchange, multi-row with
+    roll-back) never hand out overlapping blocks, by the ownership invariant `ConcInv`
+    (`conc_invariant_all_schedules`).
+
+  PARTIAL: the all-interleavings statement for the *whole* allocator (bit search
+  `set_first_zeros`, huge-frame counters and markers, tree counters, reservations) is not a
+  theorem. That part is explored by the trace co-simulation: real threads under a deterministic scheduler
   (preemption-bounded DFS + random schedules), every event replayed on the Lean interleaving
   semantics (`Th.step`), ownership oracle after every returned allocation and at quiescent ends.
 -/
 import LLFreeV.Props.C12
 import LLFreeV.Proofs.UpperInit
+import LLFreeV.Proofs.OwnThreads
 namespace LLFree.C01
 open LLFree
 
@@ -106,5 +113,30 @@ theorem fresh_in_range (c : Cfg) (m : Mem) (inv : LowerInv c m) (f : Nat) (hfree
   unfold Mem.allocated at hfree
   rw [this] at hfree
   simp at hfree
+
+
+/-- **Every interleaving, any number of threads (bitfield level).** Threads `k = 0, 1, 2, …` run
+    arbitrary command lists of targeted allocations `Bitfield::toggle(.., false)` (every order up
+    to the huge order, single word, narrow compare-exchange and multi-row with roll-back) and
+    frees of blocks they hold; the scheduler picks the thread of every single atomic access
+    (`sched`, unbounded). In every state reached: the frames held by different threads are
+    disjoint, and a finished thread holds exactly the valid, pairwise disjoint blocks it reports
+    (`HeldOk`). The proof is an ownership (rely/guarantee) invariant preserved by every atomic
+    step (`ConcInv.step`): a compare-exchange only claims bits that are 0 at that instant and only
+    clears bits its thread owns. -/
+theorem conc_bitfield_blocks_disjoint (g : Geom) (okg : GeomOk g) (cmds : Nat → List BCmd) (m : Mem) (sched : List Nat) :
+    ∃ owns' : Nat → Owned, (∀ j k, j ≠ k → ∀ f, owns' j f = true → owns' k f = false) ∧
+      ∀ k, match ((concRun sched (m, fun k => Th.at (runCmds g (cmds k) []))).2 k).step
+            (concRun sched (m, fun k => Th.at (runCmds g (cmds k) []))).1 with
+        | .done held => owns' k = ownedBy g held ∧ HeldOk g held
+        | .dead s => s = oobMsg
+        | .step _ _ _ => True :=
+  bitfield_threads_safe okg cmds m sched
+
+/-- the invariant behind it, for arbitrary thread programs that are `SafeR` -/
+theorem conc_invariant_all_schedules {α : Type} (Post : α → Owned → Prop) (sched : List Nat) (m : Mem) (ths : Nat → Th α)
+    (owns : Nat → Owned) (inv : ConcInv Post m ths owns) :
+    ∃ owns', ConcInv Post (concRun sched (m, ths)).1 (concRun sched (m, ths)).2 owns' :=
+  ConcInv.run sched m ths owns inv
 
 end LLFree.C01
